@@ -291,6 +291,9 @@ func addStringIntrinsics(m map[string]intrinsicFn) {
 		}
 		panic(unsupported{"strings.Trim on symbolic"})
 	}
+	// cloning a string is the identity on values (the real code uses unsafe.String)
+	m["strings.Clone"] = func(fr *frame, a []value) value { return a[0] }
+	m["internal/stringslite.Clone"] = func(fr *frame, a []value) value { return a[0] }
 	m["strings.Repeat"] = func(fr *frame, a []value) value {
 		x, xo := concStr(a[0])
 		if xo {
